@@ -23,6 +23,8 @@ TRICKY = [
     "var d1 = 8 / /* c */ 2", "var d2 = 8 /* a */ / 2 // x", "/* one-line */", "var u = \"'\" + \"`\"", "var rs = '/'",
     "var cm = \"*/\"", "// plain comment with `backquote and \"quote", "//govalid:already-new", "//  +govalid:two-spaces", "//+govalid:nospace",
     "// + govalid:space-after-plus",
+    # position directives: token.File.Line/Position are adjusted by them, offsets and the raw line table are not
+    "//line schema.tmpl:1", "//line gen.go:480", "/*line blk.go:7:3*/ var ln1 = 1", "//line :3", "//go:generate echo // +govalid:required", "//nolint:all // +govalid:x",
 ]
 
 
@@ -34,7 +36,7 @@ def synth_file(rng, pkg, idx):
 
     def uniq(line):
         # make every tricky declaration's name unique within the package
-        for stem in ("r1", "r2", "s1", "s2", "q1", "q2", "e1", "f1", "g1", "h1", "h2", "d1", "d2", "u", "rs", "cm"):
+        for stem in ("r1", "r2", "s1", "s2", "q1", "q2", "e1", "f1", "g1", "h1", "h2", "d1", "d2", "u", "rs", "cm", "ln1"):
             line = line.replace("var %s =" % stem, "var %s =" % next(names))
         return line
     for t in rng.sample(TRICKY, rng.randint(6, len(TRICKY))):
@@ -56,6 +58,8 @@ def synth_file(rng, pkg, idx):
     L.append("\t`// +govalid:required`,")
     L.append("}")
     for s in range(rng.randint(1, 3)):
+        if rng.random() < 0.4:
+            L.append("//line tmpl%d.src:%d" % (s, rng.choice([1, 2, 7, 300, 100000])))
         L.append(rng.choice(["// +govalid:required", "//govalid:required", "// a doc comment"]))
         L.append("type T%d_%d struct {" % (idx, s))
         for f in range(rng.randint(1, 6)):
